@@ -275,8 +275,11 @@ def copy_without_sharing(ctx):
             own = cname == ci.name or src(v.func) in ('type(self)', 'self.__class__')
             ctx.check(own, f'{f.qualname}:constructs own class', r, f'returns {cname}(...)',
                       f'copy() of {ci.name} constructs `{src(v.func)}`: the copy is of another class', f)
-            # every use of a member attribute must be under .copy()
-            for n in ast.walk(v):
+            # every use of a member attribute must be under .copy() - also behind a local (`low, _ = self.members; LimitsType(low)`)
+            from sa.model import set_parents
+            rv = resolved(v, f.node)
+            set_parents(rv)
+            for n in ast.walk(rv):
                 if isinstance(n, ast.Attribute) and n.attr in MEMBER_ATTRS and isinstance(n.ctx, ast.Load):
                     par = n.parent
                     copied = False
@@ -297,6 +300,12 @@ def copy_without_sharing(ctx):
                     # TupleOf.copy(self).members[0]  - copy through the base class
                     if isinstance(n.value, ast.Call) and call_attr(n.value) == 'copy':
                         copied = True
+                    # copied_members(self.members): a module level function that hands back copies of what it is given
+                    for a in ancestors(n):
+                        if isinstance(a, ast.Call) and isinstance(a.func, ast.Name) and is_copier(m, f.module, a.func.id):
+                            copied = True
+                        if isinstance(a, ast.stmt):
+                            break
                     ctx.check(copied, f'{f.qualname}:member datatypes are copied ({src(n)})', n, 'passed through .copy()',
                               f'`{src(n)}` reaches the constructor of the copy without .copy(): original and copy share the member '
                               'datatype object - changing a property (unit, limits, enum) of one changes the other', f)
